@@ -115,6 +115,144 @@ theorem c16_validate_export_house_partial (σ : State) (h : houseInv σ = true) 
   simp only [hall, Bool.not_true, Bool.false_eq_true, ↓reduceIte, hp.1.1.1.1.2, hp.1.1.1.2, hp.1.1.2, Bool.and_self]
 
 -- =============================================================================================
+-- bet
+
+/-- what `betInv` says, as propositions -/
+theorem betInv_unpack (σ : State) (h : betInv σ = true) :
+    Sorted Bet.key σ.bets ∧ hasDup (σ.bets.map (·.uid)) = false ∧ (∀ b ∈ σ.bets, b.id ≠ 0) ∧ σ.betCount = σ.bets.length ∧
+    (∀ b ∈ σ.bets, ¬ (b.settleHeight = 0 ∧ b.status = BS_SETTLED)) ∧
+    σ.pending = setAll pendKey ((σ.bets.filter (fun b => b.settleHeight == 0)).map pendEntry) [] ∧
+    σ.settled = setAll pendKey ((σ.bets.filter (fun b => b.settleHeight != 0)).map settEntry) [] ∧
+    (∀ b ∈ σ.bets, σ.pending.filter (fun x => x.2.2.1 == b.uid) = (if b.settleHeight == 0 then [pendEntry b] else [])) ∧
+    (∀ b ∈ σ.bets, σ.settled.filter (fun x => x.2.2.1 == b.uid) = (if b.settleHeight != 0 then [settEntry b] else [])) ∧
+    σ.pending.length + σ.settled.length = σ.bets.length := by
+  unfold betInv at h
+  simp only [Bool.and_eq_true] at h
+  obtain ⟨⟨⟨⟨⟨⟨⟨⟨⟨h1, h2⟩, h3⟩, h4⟩, h5⟩, h6⟩, h7⟩, h8⟩, h9⟩, h10⟩ := h
+  rw [sortedB_iff] at h1
+  refine ⟨h1, by simpa using h2, ?_, by simpa using h4, ?_, by simpa using h6, by simpa using h7, ?_, ?_, by simpa using h10⟩
+  · intro b hb
+    have := List.all_eq_true.mp h3 b hb
+    simpa using this
+  · intro b hb hc
+    have := List.all_eq_true.mp h5 b hb
+    simp [hc.1, hc.2] at this
+  · intro b hb
+    have := List.all_eq_true.mp h8 b hb
+    exact eq_of_beq this
+  · intro b hb
+    have := List.all_eq_true.mp h9 b hb
+    exact eq_of_beq this
+
+theorem flatMap_congr' {α β : Type} (l : List α) (f g : α → List β) (h : ∀ a ∈ l, f a = g a) : l.flatMap f = l.flatMap g := by
+  induction l with
+  | nil => rfl
+  | cons x xs ih =>
+    simp only [List.flatMap_cons]
+    rw [h x (List.mem_cons_self ..), ih (fun a ha => h a (List.mem_cons_of_mem _ ha))]
+
+theorem export_pending_filter (σ : State) (u : Nat) :
+    (exportBet σ).pending.filter (fun p => p.1 == u) = (σ.pending.filter (fun x => x.2.2.1 == u)).map (fun x => (x.2.2.1, x.2.2.2)) := by
+  simp only [exportBet, List.filter_map]
+  rfl
+
+theorem export_settled_filter (σ : State) (u : Nat) :
+    (exportBet σ).settled.filter (fun p => p.1 == u) = (σ.settled.filter (fun x => x.2.2.1 == u)).map (fun x => (x.2.2.1, x.2.2.2)) := by
+  simp only [exportBet, List.filter_map]
+  rfl
+
+theorem any_eq_filter {α : Type} (l : List α) (p : α → Bool) : l.any p = !(l.filter p).isEmpty := by
+  induction l with
+  | nil => rfl
+  | cons x xs ih =>
+    simp only [List.any_cons, List.filter_cons]
+    cases p x <;> simp [ih]
+
+/-- C16 bet: the export of a reachable state with accepted parameters passes all checks of the bet genesis validation. -/
+theorem c16_validate_export_bet (σ : State) (h : betInv σ = true) (hp : σ.params.valid = true) :
+    validateBet (exportBet σ) = 0 := by
+  obtain ⟨_, hdup, hid, hcount, hst, _, _, hpf, hsf, hlen⟩ := betInv_unpack σ h
+  have hbets : (exportBet σ).bets = σ.bets.map (fun b => { b with id := 0 }) := rfl
+  have F1 : ((exportBet σ).bets.length != (exportBet σ).count) = false := by
+    simp [exportBet, hcount]
+  have F2 : ((exportBet σ).pending.length + (exportBet σ).settled.length != (exportBet σ).bets.length) = false := by
+    simp [exportBet, hlen]
+  have F3 : hasDup ((exportBet σ).bets.map (·.uid)) = false := by
+    rw [hbets, List.map_map]
+    exact hdup
+  have F4 : firstErr ((exportBet σ).bets.map (validateOneBet (exportBet σ))) = 0 := by
+    apply firstErr_zero
+    intro c hc
+    rw [hbets, List.map_map] at hc
+    obtain ⟨b, hb, rfl⟩ := List.mem_map.mp hc
+    simp only [Function.comp]
+    unfold validateOneBet
+    have e1 : idOf (exportBet σ).uid2id b.uid = b.id := idOf_export σ.bets hdup b hb
+    have a1 : (exportBet σ).pending.any (fun p => p.1 == b.uid) = (b.settleHeight == 0) := by
+      rw [any_eq_filter, export_pending_filter, hpf b hb]
+      cases b.settleHeight == 0 <;> simp
+    have a2 : (exportBet σ).settled.any (fun p => p.1 == b.uid) = (b.settleHeight != 0) := by
+      rw [any_eq_filter, export_settled_filter, hsf b hb]
+      cases b.settleHeight != 0 <;> simp
+    simp only [e1, a1, a2]
+    have := hid b hb
+    have hs := hst b hb
+    by_cases h0 : b.settleHeight = 0
+    · have : ¬ b.status = BS_SETTLED := fun e => hs ⟨h0, e⟩
+      simp [h0, this, hid b hb]
+    · simp [h0, hid b hb]
+  have F5 : betParamsOk (exportBet σ) = true := by
+    unfold Params.valid at hp
+    simp only [Bool.and_eq_true, decide_eq_true_eq] at hp
+    simp [betParamsOk, exportBet, hp.1.1.1.1.1.1.1, hp.1.1.1.1.1.1.2, hp.1.1.1.1.1.2]
+  unfold validateBet
+  simp only [F1, F2, F3, F4, F5, Bool.false_eq_true, ↓reduceIte, bne_self_eq_false]
+
+/-- C16 bet: the bet store (with the ids, i.e. also the uid → id store), the pending and the settled index, the bet
+    counter and the three parameters come back. -/
+theorem c16_import_export_bet (σ : State) (h : betInv σ = true) :
+    let σ' := importBet (exportBet σ) (freshCore σ)
+    σ'.bets = σ.bets ∧ σ'.pending = σ.pending ∧ σ'.settled = σ.settled ∧ σ'.betCount = σ.betCount ∧
+    σ'.params.betBatch = σ.params.betBatch ∧ σ'.params.betMin = σ.params.betMin ∧ σ'.params.betFee = σ.params.betFee := by
+  obtain ⟨hsort, hdup, _, _, _, hpe, hse, hpf, hsf, _⟩ := betInv_unpack σ h
+  have hf := foldl_importOneBet (exportBet σ) (exportBet σ).bets { freshCore σ with betCount := (exportBet σ).count }
+  simp only at hf
+  obtain ⟨f1, f2, f3, f4, _⟩ := hf
+  have hbets : (exportBet σ).bets = σ.bets.map (fun b => { b with id := 0 }) := rfl
+  -- every bet gets its id back
+  have hrestore : (exportBet σ).bets.map (restoreId (exportBet σ)) = σ.bets := by
+    rw [hbets, List.map_map]
+    conv => rhs; rw [← List.map_id σ.bets]
+    apply List.map_congr_left
+    intro b hb
+    have e : idOf (exportBet σ).uid2id b.uid = b.id := idOf_export σ.bets hdup b hb
+    simp only [Function.comp, restoreId, id, e]
+  -- the index entries written for one bet
+  have hpw : (exportBet σ).bets.flatMap (pendWrites (exportBet σ)) = (σ.bets.filter (fun b => b.settleHeight == 0)).map pendEntry := by
+    rw [hbets, List.flatMap_map, ← flatMap_ite]
+    apply flatMap_congr'
+    intro b hb
+    have e : idOf (exportBet σ).uid2id b.uid = b.id := idOf_export σ.bets hdup b hb
+    simp only [Function.comp, pendWrites]
+    rw [export_pending_filter, hpf b hb, e]
+    cases b.settleHeight == 0 <;> simp [pendEntry]
+  have hsw : (exportBet σ).bets.flatMap (settWrites (exportBet σ)) = (σ.bets.filter (fun b => b.settleHeight != 0)).map settEntry := by
+    rw [hbets, List.flatMap_map, ← flatMap_ite]
+    apply flatMap_congr'
+    intro b hb
+    have e : idOf (exportBet σ).uid2id b.uid = b.id := idOf_export σ.bets hdup b hb
+    simp only [Function.comp, settWrites]
+    rw [export_settled_filter, hsf b hb, e]
+    cases b.settleHeight != 0 <;> simp [settEntry]
+  unfold importBet
+  simp only
+  refine ⟨?_, ?_, ?_, ?_, rfl, rfl, rfl⟩
+  · rw [f1, hrestore]; exact setAll_sorted Bet.key σ.bets hsort
+  · rw [f2, hpw, hpe]; rfl
+  · rw [f3, hsw, hse]; rfl
+  · rw [f4]; rfl
+
+-- =============================================================================================
 -- mint
 
 /-- C16 mint: minter and parameters come back. -/
